@@ -154,6 +154,19 @@ def stores(fn, root=None):
             op = nd["op"][-2:]
         else:
             continue
+        # equivalent spellings of an update are presented alike: x = x + e  ->  x += e ;  x += 1  ->  x++
+        if k == "Assign" and op == "=":
+            rj = fn.strip(rhs)
+            rn = fn.nodes[rj]
+            if rn["k"] == "Bin" and rn["op"] in ("+", "-"):
+                lc = fn.canon(lhs, subst=False)
+                a, b = rn["ch"]
+                if fn.canon(a, subst=False) == lc:
+                    op, rhs = rn["op"] + "=", b
+                elif rn["op"] == "+" and fn.canon(b, subst=False) == lc:
+                    op, rhs = "+=", a
+        if op in ("+=", "-=") and rhs is not None and fn.constval(rhs) == 1:
+            op, rhs = ("++" if op == "+=" else "--"), None
         ln = fn.nodes[lhs]
         out.append({"node": i, "lhs": lhs, "path": fn.canon(lhs, subst=False), "spath": fn.canon(lhs),
                     "field": ln.get("field") if ln["k"] == "Member" else None,
